@@ -184,13 +184,14 @@ class Limit(Exception):
 
 
 class Sim:
-    def __init__(self, crates, hooks=None, inline=None, max_paths=4000, max_depth=6):
+    def __init__(self, crates, hooks=None, inline=None, max_paths=4000, max_depth=6, max_visits=1):
         """crates: list of facts.Crate used to look up callee bodies."""
         self.crates = crates
         self.hooks = hooks or {}
         self.inline = inline or (lambda fn, callee_fn: False)
         self.max_paths = max_paths
         self.max_depth = max_depth
+        self.max_visits = max_visits
         self.npaths = 0
         self.statics = {}
         self.adts = {}
@@ -561,7 +562,7 @@ class Sim:
         while stack:
             bb, env, path, visits = stack.pop()
             while True:
-                if visits.get(bb, 0) >= 1:
+                if visits.get(bb, 0) >= self.max_visits:
                     path.end = "loop"
                     path.loop_header = (fn.path, bb)
                     results.append(path)
